@@ -194,3 +194,41 @@ fn hook_fn(site: &Site) {
         }
     }
 }
+
+// ---------------------------------------------------------------------------------------------
+// Breadcrumbs for the crash supervisor: an allocation failure or stack overflow inside the library
+// aborts the process and escapes catch_unwind.  In "careful" mode (second attempt after a crash)
+// every input is written to a file before it is parsed, so that the supervisor can name it.
+// ---------------------------------------------------------------------------------------------
+
+static CAREFUL: std::sync::OnceLock<Option<String>> = std::sync::OnceLock::new();
+
+fn crumb_path() -> &'static Option<String> {
+    CAREFUL.get_or_init(|| std::env::var("PLV_CAREFUL").ok())
+}
+
+#[inline]
+pub fn crumb(entry: &str, input: &str) {
+    if let Some(base) = crumb_path() {
+        // one file per thread: the last line written is the input being processed
+        thread_local! {
+            static FILE: RefCell<Option<std::fs::File>> = const { RefCell::new(None) };
+        }
+        FILE.with(|f| {
+            use std::io::{Seek, SeekFrom, Write};
+            let mut f = f.borrow_mut();
+            if f.is_none() {
+                let name = format!("{}.{:?}", base, std::thread::current().id()).replace(['(', ')'], "");
+                *f = std::fs::File::create(name).ok();
+            }
+            if let Some(file) = f.as_mut() {
+                let _ = file.seek(SeekFrom::Start(0));
+                let _ = file.set_len(0);
+                let _ = file.write_all(entry.as_bytes());
+                let _ = file.write_all(b"\n");
+                let _ = file.write_all(input.as_bytes());
+                let _ = file.flush();
+            }
+        });
+    }
+}
